@@ -64,6 +64,8 @@ func (c10) Gen(rt *rapid.T, thorough bool) any {
 				ctx |= 4 // already cancelled
 			case 1:
 				ctx |= 8 // deadline exceeded
+			case 2:
+				ctx |= 16 // the timestamp hook answers with the zero time for this context
 			}
 			ops = append(ops, EvOp{Kind: rapid.IntRange(0, 14).Draw(rt, "kind"), Size: rapid.SampledFrom([]int{0, 12}).Draw(rt, "size"), Ctx: ctx})
 		}
